@@ -9,13 +9,14 @@
      AttrsConform(o, r, t, loc)  what a copy `o` of route r sent to peer t must look like
      ExportAttrs(r, t, loc)      the canonical conformant copy
      MayAdvertise(r, t, loc)     r may be sent to t at all
+     MustAdvertise / MustWithdraw  r has to be sent / the previous best has to be withdrawn
      MustReject(r, p, loc)       a route received from p must not be used
    Where the sources leave freedom the predicates accept every conformant outcome (listed at
    each rule).
 
    MECHANISM layer (shaped like the code: server.go filterpath / prePolicyFilterpath /
    postFilterpath, table.UpdatePathAttrs, peer.handleUpdate):
-     MechAdvertise, MechAttrs, MechUsed
+     MechAdvertiseW, MechAttrs, MechUsed
 
    A route is a record
      [src, fam, nha, nhm, asattr, aspath, origin, lp, med, origid, clist, unk, comm]
@@ -255,6 +256,27 @@ MayAdvertise(r, t, loc) ==
         t.as \notin ASSetOf(RepPeer(r.aspath, t, SessionAS(t, loc)), {"SEQ", "SET"}))
   /\ ~(r.src.kind = "ibgp" /\ t.kind = "ibgp")
 
+(* The other direction, where the sources determine it.  RFC 4271 9.1.3 / 9.2: the routes selected
+   into the Loc-RIB are disseminated to every external peer unless policy (none here) or one of the
+   rules above excludes them.  The per-neighbour AS_PATH options do not exclude anything:
+   replace-peer-as (openconfig bgp:replace-peer-as, pkg/config/oc: "Replace occurrences of the
+   peer's AS in the AS_PATH with the local autonomous system number") rewrites the path that is
+   shown to the peer, so the peer's AS is no longer in it and the route IS sent (AS override);
+   remove-private-as only edits the path; allow-own-as concerns received routes only.
+   Required for external (eBGP / confederation) targets; towards IBGP peers and route-server
+   clients further reasons to keep a route back exist that the sources do not fix (one-sided). *)
+MustAdvertise(r, t, loc) == t.kind \in {"ebgp", "confed"} /\ MayAdvertise(r, t, loc)
+
+(* Implicit replacement: `olds` = <<>> or <<o>>, o the previous best route of the prefix.  When the
+   new best must not be sent to an external peer that was told o, o has to be withdrawn explicitly
+   (RFC 4271 3.1 / 9.1.3: a route that is no longer the advertised one is withdrawn or replaced). *)
+MustWithdraw(r, olds, t, loc) ==
+  /\ olds # <<>> /\ t.kind \in {"ebgp", "confed"}
+  /\ ~MayAdvertise(r, t, loc) /\ MayAdvertise(olds[1], t, loc)
+
+(* The best route r went away altogether: an external peer that was told r is sent its withdrawal. *)
+MustWithdrawGone(r, t, loc) == MustAdvertise(r, t, loc)
+
 WhyNot(r, t, loc) ==
   IF r.src.id = t.id THEN "back-to-source"
   ELSE IF r.src.kind = "ibgp" /\ t.kind = "ibgp" THEN "nonclient-to-nonclient"
@@ -284,8 +306,13 @@ WhyReject(r, p, loc) ==
 
 (* server.go prePolicyFilterpath + filterpath + peer.filterPathFromSourcePeer, old = nil,
    families enabled, no RTC/VRF, allow-as-path-loop-local off *)
-MechAdvertise(r, t, loc) ==
-  LET p1 == RepPeer(r.aspath, t, SessionAS(t, loc))                        \* path.ReplaceAS
+(* wd = the path handed over is the withdrawal of r.  path.ReplaceAS is applied to announcements
+   only, so isASLoop sees the RAW AS_PATH of a withdrawal - of r itself, or of the previous best
+   that filterPathFromSourcePeer substitutes - and drops it (KF-C09-override-withdraw-dropped). *)
+MechAdvertiseW(r, olds, wd, t, loc) ==
+  LET p1 == IF wd THEN r.aspath ELSE RepPeer(r.aspath, t, SessionAS(t, loc))   \* path.ReplaceAS, BEFORE filterpath
+      hasOld == olds # <<>> /\ ~wd                                          \* "!path.IsWithdraw && old != nil"
+      loops(p) == t.kind # "rsclient" /\ t.as \in ASSetOf(p, {"SEQ", "SET"})  \* isASLoop
       ibgpIgnore ==
         IF IsInternal(t.kind) /\ ~IsLocalRoute(r)
         THEN /\ ~(r.src.as # t.as)                                           \* not from an eBGP peer
@@ -294,10 +321,20 @@ MechAdvertise(r, t, loc) ==
         ELSE FALSE
       clusterStop == /\ IsInternal(t.kind) /\ ~IsLocalRoute(r) /\ t.kind = "rrclient"
                      /\ loc.cluster \in Range(r.clist)
-  IN IF clusterStop \/ ibgpIgnore THEN "no"
-     ELSE IF ~IsLocalRoute(r) /\ r.src.rid = t.rid THEN "no"                 \* "From me, ignore"
-     ELSE IF t.kind # "rsclient" /\ t.as \in ASSetOf(p1, {"SEQ", "SET"}) THEN "no"   \* isASLoop
-     ELSE "yes"
+  IN IF clusterStop THEN "no"
+     ELSE IF ibgpIgnore THEN
+       (IF hasOld /\ (IsLocalRoute(olds[1]) \/ (olds[1].src.addr # t.addr /\
+                                                (olds[1].src.as # t.as \/ olds[1].src.kind = "rrclient")))
+        THEN "withdraw" ELSE "no")
+     ELSE IF ~IsLocalRoute(r) /\ r.src.rid = t.rid THEN                     \* filterPathFromSourcePeer
+       (IF t.kind # "rsclient" /\ hasOld /\ olds[1].src.addr # t.addr /\ ~loops(olds[1].aspath)
+        THEN "withdraw" ELSE "no")
+     ELSE IF loops(p1) THEN (IF hasOld THEN "withdraw" ELSE "no")
+     ELSE IF wd THEN "withdraw" ELSE "yes"
+
+MechAdvertiseH(r, olds, t, loc) == MechAdvertiseW(r, olds, FALSE, t, loc)
+
+MechAdvertise(r, t, loc) == MechAdvertiseH(r, <<>>, t, loc)
 
 (* table.UpdatePathAttrs after path.ReplaceAS, followed by postFilterpath (RemoveLocalPref) *)
 MechAttrs(r, t, loc) ==
@@ -326,10 +363,11 @@ MechAttrs(r, t, loc) ==
                !.unk = unk1]
 
 (* peer.handleUpdate: hasOwnASLoop counts the session AS and the confederation identifier
-   together; ORIGINATOR_ID is checked for IBGP peers; CLUSTER_LIST is not checked on receipt *)
+   together; ORIGINATOR_ID and (since repo commit ddcea20) CLUSTER_LIST are checked for IBGP peers *)
 MechUsed(r, p, loc) ==
   LET own == SessionAS(p, loc)
       n   == Count(r.aspath, own) + (IF loc.confed /\ loc.cid # own THEN Count(r.aspath, loc.cid) ELSE 0)
-  IN ~(n > p.allow) /\ ~(IsInternal(p.kind) /\ r.origid = loc.rid)
+  IN /\ ~(n > p.allow) /\ ~(IsInternal(p.kind) /\ r.origid = loc.rid)
+     /\ ~(IsInternal(p.kind) /\ loc.cluster \in Range(r.clist))
 
 =============================================================================
